@@ -34,7 +34,9 @@ MANIFEST = {
             'the EMA kernel (NaN warm-up, seed = mean of the first window, recurrence step at every position, symbolic period), Wilder\'s '
             'smoothing kernel and the EMA kernel of MACD (first value = first price, recurrence at every position, symbolic period), the '
             'ATR kernel (true range at every position, NaN warm-up, Wilder recurrence over the true range; periods 2, 5, 14 - symbolic period '
-            'in the thorough tier), and momentum through the real wrapper (NaN warm-up, x[j] - x[j-p] at every position, symbolic period). '
+            'in the thorough tier), momentum through the real wrapper (NaN warm-up, x[j] - x[j-p] at every position, symbolic period), the four '
+            'price transforms (formula, low <= value <= high), the Donchian channel (bands bound and are attained inside the trailing window, '
+            'ordered, middle = mean; window 2 and 3, 5 in the thorough tier) and the range [-100, 0] of Williams %R (window 2, 3). '
             'Bounded stand-ins (14 candles, symbolic values, periods 2/3/5, RSI 2/3/4), reported under '
             'bounded_checks: SMA/WMA/ROC/MOM/OBV/typical/median price equal their window definitions exactly, EMA/DEMA/TEMA/Wilders '
             'satisfy their recurrence step, RSI in [0,100], Williams %R in [-100,0], ATR >= 0 and its Wilder recurrence over the true '
@@ -427,6 +429,86 @@ def t_atr_unbounded(P):
   return t
 
 
+PRICE_TRANSFORMS = {'typprice': '(c[j][2] + c[j][3] + c[j][4]) / 3', 'medprice': '(c[j][3] + c[j][4]) / 2',
+                    'avgprice': '(c[j][1] + c[j][3] + c[j][4] + c[j][2]) / 4', 'wclprice': '(c[j][3] + c[j][4] + 2 * c[j][2]) / 4'}
+
+
+def t_price_transform(name):
+    """UNBOUNDED: a price transform through the real wrapper on a candle array of symbolic length equals its textbook formula at EVERY
+    position, lies between low and high, and scales linearly with the price"""
+    def t(h):
+        c = h.ctx.fresh_arr('candles', np=True, cols=6)
+        n = c.n
+        h.assume(ops.compare('>=', n, 1))
+        q = ops.fresh_qvar('k')
+        row = c.fn(Sym(q, 'int'))
+        valid = z3.And(row.e[4].t <= row.e[1].t, row.e[4].t <= row.e[2].t, row.e[1].t <= row.e[3].t, row.e[2].t <= row.e[3].t)
+        h.ctx.s.add(z3.ForAll([q], z3.Implies(z3.And(q >= 0, q < n.t), valid)))       # valid candles: low <= open, close <= high
+        h.cover(f'{name}.unbounded.pre')
+        out = h.outcome(f'jesse.indicators.{name}.{name}', c, sequential=True)
+        h.prove(out.ok, f'{name}.series.no-exception', {'raised': out.exc})
+        if not out.ok:
+            return
+        env = dict(r=out.value, c=c, n=n)
+        h.prove(h.ev('len(r) == n', **env), f'{name}.series.one-entry-per-candle.for-every-length')
+        h.prove(h.ev(f'forall(lambda j: r[j] == {PRICE_TRANSFORMS[name]}, 0, n)', **env), f'{name}.series.equals-its-formula-at-every-position.for-every-length')
+        h.prove(h.ev('forall(lambda j: c[j][4] <= r[j] and r[j] <= c[j][3], 0, n)', **env), f'{name}.series.lies-between-low-and-high.for-every-length')
+    return t
+
+
+def t_donchian_unbounded(P):
+    """UNBOUNDED in the series length (window width fixed per task): Donchian channel through the real wrapper - NaN warm-up, the upper
+    band is the highest high and the lower band the lowest low of the trailing window (bound and attainment), the bands enclose the
+    candle and are ordered upper >= middle >= lower at EVERY position"""
+    def t(h):
+        c = h.ctx.fresh_arr('candles', np=True, cols=6)
+        n = c.n
+        h.assume(ops.compare('>=', n, P))
+        q = ops.fresh_qvar('k')
+        row = c.fn(Sym(q, 'int'))
+        valid = z3.And(row.e[4].t <= row.e[1].t, row.e[4].t <= row.e[2].t, row.e[1].t <= row.e[3].t, row.e[2].t <= row.e[3].t)
+        h.ctx.s.add(z3.ForAll([q], z3.Implies(z3.And(q >= 0, q < n.t), valid)))
+        h.cover('donchian.unbounded.pre')
+        out = h.outcome('jesse.indicators.donchian.donchian', c, P, sequential=True)
+        h.prove(out.ok, 'donchian.series.no-exception', {'raised': out.exc})
+        if not out.ok:
+            return
+        r = out.value
+        f_ = dict(zip(r._fields, list(r)))
+        env = dict(u=f_['upperband'], m=f_['middleband'], l=f_['lowerband'], c=c, n=n, p=P)
+        h.prove(h.ev('len(u) == n and len(m) == n and len(l) == n', **env), 'donchian.series.one-entry-per-candle.for-every-length')
+        h.prove(h.ev('forall(lambda j: isnan(u[j]) and isnan(l[j]), 0, p - 1)', **env), 'donchian.series.warm-up-is-nan.for-every-length')
+        h.prove(h.ev('forall(lambda j: forall(lambda t: u[j] >= c[j - t][3] and l[j] <= c[j - t][4], 0, p), p - 1, n)', **env),
+                'donchian.series.bands-bound-every-candle-of-the-trailing-window.for-every-length')
+        h.prove(h.ev('forall(lambda j: exists(lambda t: u[j] == c[j - t][3], 0, p) and exists(lambda t: l[j] == c[j - t][4], 0, p), p - 1, n)', **env),
+                'donchian.series.bands-are-attained-inside-the-trailing-window.for-every-length')
+        h.prove(h.ev('forall(lambda j: u[j] >= m[j] and m[j] >= l[j] and m[j] == (u[j] + l[j]) / 2, p - 1, n)', **env),
+                'donchian.series.bands-are-ordered-and-the-middle-is-their-mean.for-every-length')
+    return t
+
+
+def t_willr_unbounded(P):
+    """UNBOUNDED in the series length (window width fixed per task): Williams %R through the real wrapper stays inside [-100, 0] at
+    EVERY position after the warm-up, for every series of valid candles"""
+    def t(h):
+        c = h.ctx.fresh_arr('candles', np=True, cols=6)
+        n = c.n
+        h.assume(ops.compare('>=', n, P))
+        q = ops.fresh_qvar('k')
+        row = c.fn(Sym(q, 'int'))
+        valid = z3.And(row.e[4].t <= row.e[1].t, row.e[4].t <= row.e[2].t, row.e[1].t <= row.e[3].t, row.e[2].t <= row.e[3].t)
+        h.ctx.s.add(z3.ForAll([q], z3.Implies(z3.And(q >= 0, q < n.t), valid)))
+        h.cover('willr.unbounded.pre')
+        out = h.outcome('jesse.indicators.willr.willr', c, P, sequential=True)
+        h.prove(out.ok, 'willr.series.no-exception', {'raised': out.exc})
+        if not out.ok:
+            return
+        env = dict(r=out.value, n=n, p=P)
+        h.prove(h.ev('len(r) == n and forall(lambda j: isnan(r[j]), 0, p - 1)', **env), 'willr.series.one-entry-per-candle-and-nan-warm-up.for-every-length')
+        h.prove(h.ev('forall(lambda j: -100 <= r[j] and r[j] <= 0, p - 1, n)', **env), 'willr.series.stays-inside-its-range-at-every-position.for-every-length')
+    return t
+
+
 def t_window_unbounded(name):
     """UNBOUNDED in length and period: momentum / rate of change through the real wrapper on a candle array of symbolic length: NaN
     during the first `period` positions, then close[j] - close[j-p] resp. (close[j] / close[j-p] - 1) * 100 at EVERY position"""
@@ -482,6 +564,12 @@ def tasks(tier):
     for P in ((2, 5, 14) if tier == 'quick' else (2, 5, 14, None)):
         ts.append(Task(f'atr.unbounded.p{P}', t_atr_unbounded(P), extra=dict(spec_mod=SPEC), overrides=dict(ov), invariants=dict(ATR_INV), prove_timeout_ms=60000))
     ts.append(Task('macd-ema.unbounded', t_macd_ema_unbounded, extra=dict(spec_mod=SPEC), overrides=dict(ov), invariants=dict(MACD_EMA_INV), prove_timeout_ms=60000))
+    for P in ((2, 3) if tier == 'quick' else (2, 3, 5)):
+        ts.append(Task(f'donchian.unbounded.p{P}', t_donchian_unbounded(P), extra=dict(spec_mod=SPEC), overrides=dict(ov), prove_timeout_ms=60000))
+    for P in (2, 3):
+        ts.append(Task(f'willr.unbounded.p{P}', t_willr_unbounded(P), extra=dict(spec_mod=SPEC), overrides=dict(ov), prove_timeout_ms=60000))
+    for nm in sorted(PRICE_TRANSFORMS):
+        ts.append(Task(f'{nm}.unbounded', t_price_transform(nm), extra=dict(spec_mod=SPEC), overrides=dict(ov), prove_timeout_ms=60000))
     for nm in ('mom',):
         ts.append(Task(f'{nm}.unbounded', t_window_unbounded(nm), extra=dict(spec_mod=SPEC), overrides=dict(ov), prove_timeout_ms=60000))
     ts.append(Task('native.definitions', t_native_definitions, extra=dict(spec_mod=SPEC, bounded='native: ADX (ties), stoch (mixed matypes), stddev (price level 1e9), random / spiky series')))
